@@ -1,5 +1,7 @@
 import DoltVerif.Lemmas.CorruptStages
 import DoltVerif.Lemmas.CorruptLookup
+import DoltVerif.Lemmas.CorruptArchive
+import DoltVerif.Model.CorruptWitness
 /-!
 C10 — Corrupted storage files are reported, never misread.
 
@@ -425,6 +427,95 @@ example : (match Manifest.parseManifest wManifest with | .error .badHash => true
 example : (match Manifest.parseManifest
     ([0x35, 0x3a, 0x78, 0x3a] ++ zeros32 ++ [0x3a] ++ zeros32 ++ [0x3a] ++ zeros32) with | .ok _ => true | _ => false) = true := by
   decide +kernel
+
+/-! ### archive index path (in-memory reader) -/
+section ArchiveIndex
+open DoltVerif.Corrupt.Archive
+
+theorem readSection_cases (file : Bytes) (off n : Nat) :
+    (∃ b, readSection file off n = .ok b) ∨ readSection file off n = .error .seek ∨ readSection file off n = .error .eof := by
+  unfold readSection
+  split
+  · exact Or.inl ⟨_, rfl⟩
+  · split
+    · exact Or.inr (Or.inl rfl)
+    · split
+      · exact Or.inl ⟨_, rfl⟩
+      · exact Or.inr (Or.inr rfl)
+
+theorem readSection_bind_no_panic {α : Type} (file : Bytes) (off n : Nat) (k : Bytes → R α)
+    (hk : ∀ b, k b ≠ .error .panicWouldOccur) : (readSection file off n >>= k) ≠ .error .panicWouldOccur := by
+  rcases readSection_cases file off n with ⟨b, hb⟩ | hb | hb
+  · rw [hb]; exact hk b
+  · rw [hb]; intro h; cases h
+  · rw [hb]; intro h; cases h
+
+/-- `newInMemoryArchiveIndexReader`: the four index sections are read through section readers at
+offsets computed in wrapping uint64 arithmetic; whatever the footer claims, loading ends in a read
+error or an index, never in a panic.  (Allocation of `byteSpanCount+1` / `chunkCount` elements is
+not modelled: up to 32 GiB, the `archive:index-region:oom` finding.) -/
+theorem loadIndexWith_no_panic (file : Bytes) (f : Footer) : loadIndexWith file f ≠ .error .panicWouldOccur := by
+  unfold loadIndexWith
+  apply readSection_bind_no_panic; intro spans
+  apply readSection_bind_no_panic; intro pre
+  apply readSection_bind_no_panic; intro refs
+  apply readSection_bind_no_panic; intro suf
+  intro h; cases h
+
+/-- the archive open path (footer + index sections) on an arbitrary file -/
+theorem parse_total_no_panic_archiveIndex (file : Bytes) : loadIndex file ≠ .error .panicWouldOccur := by
+  unfold loadIndex
+  cases hf : loadFooter file with
+  | error e =>
+    intro hc
+    have : e = .panicWouldOccur := by simpa [bind, Except.bind] using hc
+    subst this; exact parse_total_no_panic_archiveFooter file hf
+  | ok f => exact loadIndexWith_no_panic file f
+
+/-- archive reads at full strength: `has` and `get` never panic on an opened archive -/
+def archive_get_no_panic_full : Prop :=
+  ∀ (file : Bytes) (x : Index) (h : Bytes), loadIndex file = .ok x → Archive.get x file h ≠ .error .panicWouldOccur
+
+/-- the valid hand-assembled archive reads back (`Witness.arcFile`; the harness opens the same
+bytes with the real reader on every run) -/
+theorem witness_archive_reads :
+    (match loadIndex Witness.arcFile >>= fun x => Archive.get x Witness.arcFile Witness.arcAddr with
+      | .ok (.snappy p) => p == Witness.payload | _ => false) = true := by decide +kernel
+
+/-- FALSE: span ends are never checked (not against each other, not against the file size): with
+the first byte of the span index set to 0xFF the span length is 0xFF00000000000000 and
+`readByteSpan` calls `make([]byte, …)` with it (`makeslice: len out of range`); a span of length 0
+trips the `Sample(0)` assertion of `fileReaderAt.ReadAtWithStats` instead.  Replayed on the real
+reader by the harness (key `archive:index-region:panic`). -/
+theorem archive_get_no_panic_full_false : ¬ archive_get_no_panic_full := by
+  intro hfull
+  have h : isPanic (loadIndex Witness.arcFileBad >>= fun x => Archive.get x Witness.arcFileBad Witness.arcAddr) = true := by
+    decide +kernel
+  cases hl : loadIndex Witness.arcFileBad with
+  | error e =>
+    have hne : isPanic (loadIndex Witness.arcFileBad) = false := by decide +kernel
+    rw [hl] at h hne
+    simp [bind, Except.bind, isPanic] at h hne
+    cases e <;> simp_all
+  | ok x =>
+    rw [hl] at h
+    exact hfull _ x _ hl (isPanic_eq (by simpa [bind, Except.bind] using h))
+
+
+/-- **archive_has_no_panic**: on an archive opened by the store's path, `has` (prefix search +
+suffix walk) never panics — even when the prefixes are damaged and no longer sorted:
+`prollyBinSearch` re-establishes `lo < target ≤ hi` by explicit comparisons, so the interpolated
+index stays in range and `bits.Div64` never overflows (`prollyBinSearch_no_panic`, for every
+slice); the accessors are bounds-checked.  The panics of archive reads start after the lookup:
+`archive_get_no_panic_full_false`. -/
+theorem archive_has_no_panic (file : Bytes) (x : Index) (h : Bytes) (hl : loadIndex file = .ok x) :
+    x.has h ≠ .error .panicWouldOccur :=
+  has_no_panic (loadIndex_wf hl) h
+
+example : (match loadIndex Witness.arcFile with | .ok x => (match x.has Witness.arcAddr with | .ok b => b | _ => false) | _ => false) = true := by
+  decide +kernel
+
+end ArchiveIndex
 
 /-! ### journal index records -/
 
